@@ -12,7 +12,7 @@ mod tests;
 use self::config::{
     AddAuditorServiceOptions, AddDaemonServiceOptions, AddFaucetServiceOptions,
     AddNodeServiceOptions, InstallAuditorServiceCtxBuilder, InstallFaucetServiceCtxBuilder,
-    InstallNodeServiceCtxBuilder,
+    InstallNodeServiceCtxBuilder, PortRange,
 };
 use crate::{
     config::{create_owned_dir, get_user_antnode_data_dir},
@@ -69,6 +69,14 @@ pub async fn add_node(
     }
 
     if let Some(port_option) = &options.metrics_port {
+        // The node takes `--metrics-server-port 0` only together with `--enable-metrics-server`,
+        // which is never written to the service definition.
+        if matches!(port_option, PortRange::Single(0) | PortRange::Range(0, _)) {
+            error!("The metrics port cannot be 0");
+            return Err(eyre!(
+                "The metrics port cannot be 0. Use --enable-metrics-server to have a port selected."
+            ));
+        }
         port_option.validate(options.count.unwrap_or(1))?;
         check_port_availability(port_option, &node_registry.nodes)?;
     }
